@@ -12,6 +12,7 @@ import GherkinVerif.Gen.Dialects
 import GherkinVerif.Gen.Grammar
 import GherkinVerif.Spec.Grammar
 import GherkinVerif.Spec.PureParse
+import GherkinVerif.Spec.TextLevel
 import Driver.GenAst
 open GV
 
@@ -78,6 +79,16 @@ def handle (op : String) (as : List (List Nat)) : J :=
       outcomeJ o ctx [("builds", .arr (ctx.builds.map fun t => .str (formatToken t))),
                       ("buildLines", .arr (ctx.builds.map fun t => .num t.lineNo)),
                       ("reads", .arr (ctx.reads.map J.num)), ("unexpected", .arr (ctx.unexpected.map J.num))]
+  | "textaccepts" =>
+    -- default dialect | src : text-level acceptor (Spec/TextLevel.lean) and the intrinsic kinds along the run
+    match MState.init D (arg as 0) with
+    | none => .obj [("crash", .str (lit "no such default dialect"))]
+    | some μ =>
+      let lines := splitLines (arg as 1)
+      let ks := Spec.textKinds D T 0 (μ.reset D) lines
+      .obj [("accepts", .bool (Spec.textAccepts D T 0 (μ.reset D) lines)),
+            ("kinds", .arr (ks.map fun k => .str (lit k.name))),
+            ("sentence", .bool (Spec.Sentence GV.Gen.grammar T.startRule ks))]
   | "pickles" =>
     -- default dialect | uri | src  (fresh counter; parse then compile)
     match MState.init D (arg as 0) with
